@@ -13,6 +13,7 @@ import (
 	"sort"
 	"strconv"
 	"strings"
+	"sync"
 	"unicode"
 	"unicode/utf8"
 )
@@ -516,6 +517,29 @@ func init() {
 			out += fmt.Sprintf("%v %v %v;", err, err == io.EOF, errors.Is(err, io.ErrUnexpectedEOF))
 			out += fmt.Sprint(dec.More(), "\n")
 		}
+		return out
+	})
+	reg("syncmap", func() string {
+		var m sync.Map
+		out := ""
+		v, ok := m.Load("a")
+		out += fmt.Sprint(v, ok, ";")
+		m.Store("a", 1)
+		m.Store(2, "two")
+		v, ok = m.Load("a")
+		out += fmt.Sprint(v, ok, ";")
+		a, loaded := m.LoadOrStore("a", 9)
+		out += fmt.Sprint(a, loaded, ";")
+		a, loaded = m.LoadOrStore("b", 9)
+		out += fmt.Sprint(a, loaded, ";")
+		m.Delete(2)
+		v, ok = m.Load(2)
+		out += fmt.Sprint(v, ok, ";")
+		v, ok = m.LoadAndDelete("b")
+		out += fmt.Sprint(v, ok, ";")
+		n := 0
+		m.Range(func(k, v any) bool { n++; return true })
+		out += fmt.Sprint(n)
 		return out
 	})
 	reg("mathbits", func() string {
